@@ -21,6 +21,9 @@ def src_line(mod, inst, repo):
     if not ch:
         return "?", "?"
     fn, f, ln = ch[0][:3]
+    # a lambda or helper defined inside / inlined into hypot still belongs to hypot's own arithmetic
+    if any(ent[0] == "hypot" for ent in ch):
+        fn = "hypot"
     import os
     path = f if os.path.isabs(f) else os.path.join(repo, f)
     try:
